@@ -94,10 +94,15 @@ def check_collection_memo(run, program, method, slot, primary, builder_name, rul
         "P": sorted(P), "K": sorted(K), "S": sorted(S),
     }
     # ---- obligations
+    bypass = _kwargs_bypass(f, kwname, slot, builder)
     for p in sorted(P):
         if p in CONTROL:
             continue
         c = f"Grid.{method}:key-covers:{p}"
+        if p.startswith("**") and p[2:] == kwname and bypass:
+            run.holds(f"{rule_prefix}/key-complete", c, where(f, bypass),
+                      f"non-empty {p} forces the rebuild path (override = True) and disables the store (cache = False): cached objects are always built without keyword arguments")
+            continue
         if p.startswith("**"):
             run.violation(
                 f"{rule_prefix}/key-complete", c, where(f, builder),
@@ -132,6 +137,78 @@ def check_collection_memo(run, program, method, slot, primary, builder_name, rul
         run.holds(f"{rule_prefix}/primary", c, where(f, prim[0]), f'slot["{primary}"] is filled')
     else:
         run.incomplete(f"{rule_prefix}/primary", c, where(f), f'no store of slot["{primary}"] found')
+
+
+def _implied_false(test, name):
+    """True when `test` being true implies that local `name` is false ( ... and not name ... )."""
+    from ..flow import _split_test
+    return any(isinstance(t, ast.Name) and t.id == name and v is False for t, v in _split_test(test, True))
+
+
+def _implied_true(test, name):
+    from ..flow import _split_test
+    return any(isinstance(t, ast.Name) and t.id == name and v is True for t, v in _split_test(test, True))
+
+
+def _guards(body, target, acc=()):
+    """Tests (test, truth) of the enclosing ifs of statement `target` inside `body`, or None."""
+    for st in body:
+        if st is target:
+            return list(acc)
+        if isinstance(st, ast.If):
+            r = _guards(st.body, target, acc + ((st.test, True),))
+            if r is not None:
+                return r
+            r = _guards(st.orelse, target, acc + ((st.test, False),))
+            if r is not None:
+                return r
+        elif isinstance(st, (ast.For, ast.While, ast.With, ast.Try)):
+            for fld in ("body", "orelse", "finalbody"):
+                r = _guards(getattr(st, fld, []) or [], target, acc)
+                if r is not None:
+                    return r
+    return None
+
+
+def _kwargs_bypass(f, kwname, slot, builder):
+    """The statement  `if <kwargs>: override = True; cache = False`  placed before every reuse return and
+    before the builder, provided every reuse return requires `not override` and every store into the slot
+    requires `cache`.  Returns the if-statement or None."""
+    if kwname is None:
+        return None
+    body = f.node.body
+    cand = None
+    for i, st in enumerate(body):
+        if any(n is builder for n in ast.walk(st)):
+            break
+        if any(isinstance(x, ast.Return) for x in iter_stmts([st])) and cand is None:
+            return None  # a return precedes the bypass
+        if isinstance(st, ast.If) and isinstance(st.test, ast.Name) and st.test.id == kwname and not st.orelse:
+            sets = {}
+            for s2 in st.body:
+                if isinstance(s2, ast.Assign) and len(s2.targets) == 1 and isinstance(s2.targets[0], ast.Name) and isinstance(s2.value, ast.Constant):
+                    sets[s2.targets[0].id] = s2.value.value
+            if sets.get("override") is True and sets.get("cache") is False:
+                cand = st
+                # no later rebinding of override to False / cache to True
+                for later in iter_stmts(body[i + 1:]):
+                    if isinstance(later, ast.Assign) and len(later.targets) == 1 and isinstance(later.targets[0], ast.Name):
+                        if later.targets[0].id == "override" and not (isinstance(later.value, ast.Constant) and later.value.value is True):
+                            return None
+                        if later.targets[0].id == "cache":
+                            return None
+    if cand is None:
+        return None
+    for st in iter_stmts(body):
+        if isinstance(st, ast.Return) and st.value is not None and any(_slot_key(n, slot) for n in ast.walk(st.value)):
+            g = _guards(body, st) or []
+            if not any(truth and _implied_false(t, "override") for t, truth in g):
+                return None
+        if isinstance(st, ast.Assign) and any(_slot_key(t, slot) for t in st.targets):
+            g = _guards(body, st) or []
+            if not any(truth and _implied_true(t, "cache") for t, truth in g):
+                return None
+    return cand
 
 
 def check_side_tables(run, program, slots, rule_prefix="F-CACHE"):
